@@ -99,15 +99,20 @@ def run_vectors(ctx, vecs, label):
                     raise Machinery('log10 not exact for coordinates %r %r' % (pn, y))
                 T, P = float(x), p_of(y)
                 for sub in (None, (1, max(2, len(tabs) - 1))):
-                    if sub is None:
-                        res = op.opacity(T, P)
-                        idx = list(range(len(tabs)))
-                    else:
-                        res = op.opacity(T, P, wn[sub[0]:sub[1]])
-                        idx = list(range(sub[0], sub[1]))
-                    res = np.asarray(res)
-                    if layout == 'ktable':
-                        res = res.reshape(len(idx), 2)
+                    idx = list(range(len(tabs))) if sub is None else list(range(sub[0], sub[1]))
+                    shape = (len(idx),) if layout == 'xsec' else (len(idx), 2)
+                    try:
+                        res = np.asarray(op.opacity(T, P) if sub is None else op.opacity(T, P, wn[sub[0]:sub[1]]))
+                        err = None if res.size == int(np.prod(shape)) else 'result of shape %r for %d requested points' % (res.shape, len(idx))
+                    except Exception as e:     # noqa -- the implementation raised for a query inside the quantifier
+                        err = '%s: %s' % (type(e).__name__, e)
+                    anyv = next(iter(d.values()))
+                    ctx.verdict('one_value_per_requested_point', err is None, cls='%s:%s:%s%s' % (anyv['reg'], mode, layout, '' if sub is None else ':subrange'),
+                                detail='opacity(T=%r, P=%r%s): %s' % (T, P, '' if sub is None else ', sub-range', err),
+                                vector=dict(anyv, unit=unit, layout=layout, sub=sub))
+                    if err is not None:
+                        continue
+                    res = res.reshape(shape)
                     for j, k in enumerate(idx):
                         v = d.get(k)
                         if v is None:
@@ -136,7 +141,7 @@ def random_events(rng, n, mode):
         tn = [rng.randint(60, 400)]
         for _ in range(nt - 1):
             tn.append(tn[-1] + rng.randint(1, 20))
-        pn = [rng.randint(-3, 2)]
+        pn = [rng.randint(-6, 6)]        # every decade: float log10 conventions differ between decades (1e3, 1e6 ...)
         for _ in range(npp - 1):
             pn.append(pn[-1] + rng.randint(1, 3))
         lo = 1 if mode == 'exp' else 0
@@ -206,7 +211,7 @@ def run(ctx):
     for mode in ('lin', 'exp'):
         ctx.check_spec('exhaustive-%s' % mode, 'MC_Interp', 'MC_Interp_%s_%s.cfg' % (mode, ctx.tier), need_actions=('Eval',))
     ctx.exhaustive = True
-    for cfg in ('EX_Interp_lin.cfg', 'EX_Interp_exp.cfg', 'EX_Interp_lin2.cfg', 'EX_Interp_exp2.cfg'):
+    for cfg in ('EX_Interp_lin.cfg', 'EX_Interp_exp.cfg', 'EX_Interp_lin2.cfg', 'EX_Interp_exp2.cfg', 'EX_Interp_lin3.cfg', 'EX_Interp_exp3.cfg'):
         res = ctx.check_spec('export-' + cfg, 'MC_Interp', cfg, workers=1)
         vecs = res.tagged('VEC')
         seen, uniq = set(), []
